@@ -318,6 +318,10 @@ def check_positions(ctx, rng, pool, fixed=None):
         if rng.random() < 0.3:
             # characters that Unicode normalisation (NFC/NFKC), case folding or whitespace trimming would change
             texts[t] += rng.choice(NORM_SENSITIVE)
+        if conv_of_tag[t]:
+            # (a '<' or '>' drawn at random followed by an appended "=?utf-8?q?..." spells a comparison
+            # sign, which conversion legitimately rewrites - that clause is C11's)
+            texts[t] = texts[t].replace(">=", "> =").replace("<=", "< =")
         if not conv_of_tag[t] and rng.random() < 0.4:
             # with conversion off the conversion triggers are ordinary characters
             texts[t] += rng.choice([" x^2", " y_1", " a>=b", " a<=b", " ^_", " >=<="])
